@@ -377,7 +377,10 @@ func genConfig(t *rapid.T, dir string) (config, expectation) {
 			}
 			n.Fields = append(n.Fields, field{Name: "appenderRef", List: list})
 			if typ == "AsyncLogger" {
-				n.Fields = append(n.Fields, attr("bufferFullPolicy", "Block"))
+				// every policy, and none at all (the declared default): one event per tag never fills a buffer
+				if pol := rapid.SampledFrom([]string{"Block", "", "Discard", "DiscardOldest"}).Draw(t, name+"policy"); pol != "" {
+					n.Fields = append(n.Fields, attr("bufferFullPolicy", pol))
+				}
 				if rapid.Bool().Draw(t, name+"hasBuf") {
 					n.Fields = append(n.Fields, attr("bufferSize", strconv.Itoa(rapid.IntRange(100, 5000).Draw(t, name+"buf"))))
 				}
@@ -393,7 +396,13 @@ func genConfig(t *rapid.T, dir string) (config, expectation) {
 		case "RollingFile":
 			n.Fields = append(n.Fields, attr("fileDir", dir), attr("fileName", name+".roll"), attr("rotation", rapid.SampledFrom([]string{"h", "h", "Daily", "2H", "quarter"}).Draw(t, name+"rot")))
 			if rapid.Bool().Draw(t, name+"async") {
-				n.Fields = append(n.Fields, attr("async", "true"), attr("bufferFullPolicy", "Block"))
+				n.Fields = append(n.Fields, attr("async", "true"))
+				if pol := rapid.SampledFrom([]string{"Block", "", "Discard", "DiscardOldest"}).Draw(t, name+"policy"); pol != "" {
+					n.Fields = append(n.Fields, attr("bufferFullPolicy", pol))
+				}
+				if rapid.Bool().Draw(t, name+"hasBuf") {
+					n.Fields = append(n.Fields, attr("bufferSize", strconv.Itoa(rapid.IntRange(100, 5000).Draw(t, name+"buf"))))
+				}
 			}
 			if rapid.Bool().Draw(t, name+"sep") {
 				n.Fields = append(n.Fields, attr("separate", rapid.SampledFrom([]string{"true", "false"}).Draw(t, name+"sepv")))
